@@ -311,10 +311,27 @@ def repo_root():
     return _real_os.path.realpath(_real_os.environ.get("VERIF_REPO", "/repo"))
 
 
+_want = {"accel": False}
+_STUBS = _real_os.path.join(_real_os.path.dirname(_real_os.path.abspath(__file__)), "stubs")
+
+
+def set_accel(on):
+    """Next install(): import the library with (True) or without (False) the stand-in for the optional `wsaccel` package."""
+    _want["accel"] = bool(on)
+
+
 def install():
     """Import websocket from $VERIF_REPO and replace every real primitive its modules hold."""
-    if _installed:
+    if _installed and _installed.get("accel") == _want["accel"]:
         return _installed["ws"]
+    _installed.clear()
+    for m in list(sys.modules):
+        if m == "wsaccel" or m.startswith("wsaccel."):
+            del sys.modules[m]
+    while _STUBS in sys.path:
+        sys.path.remove(_STUBS)
+    if _want["accel"]:
+        sys.path.insert(0, _STUBS)
     root = repo_root()
     if root not in sys.path:
         sys.path.insert(0, root)
@@ -363,7 +380,11 @@ def install():
         for attr, val in vars(mod).items():
             if id(val) in _MODULE_MAP or id(val) in _OBJ_MAP:
                 raise HarnessError(f"seam not installed: {name}.{attr}")
+    if ("Utf8Validator" in vars(ws._utils)) != _want["accel"]:
+        raise HarnessError("wsaccel stand-in %s but the library's accelerator branch is %s" % (
+            "requested" if _want["accel"] else "not requested", "active" if "Utf8Validator" in vars(ws._utils) else "inactive"))
     _installed["ws"] = ws
+    _installed["accel"] = _want["accel"]
     _installed["replaced"] = replaced
     _installed["trace_prefix"] = _real_os.path.dirname(wsfile) + _real_os.sep
     return ws
